@@ -72,9 +72,247 @@ def kernel_stream(ctx):
     return {"kernel_cases": len(cases), "kernel_disagreements": bad}
 
 
+# ---------------------------------------------------------------------------------------- cola.ops.FFT (stand-alone model)
+FFT_MODULE = "ColaVerif.Properties.C01.FFT"
+FFT_DRIVER = "DriverFFT.lean"
+FFT_CALLS = ["matmat", "dense"]                                    # C01; C02 passes the left / transpose / adjoint / annotation calls
+FFT_EXACT_N = [1, 4]                                               # root and scale in Q[i]: compared EXACTLY with the Lean driver
+FFT_ORACLE_N = [2, 3, 5, 8]                                        # irrational root / scale: tolerance 1e-12 against the defining formula
+FFT_TOL = 1e-12
+
+
+def _fft_is_left(call):
+    """`A' @ X` (operand n x b) as opposed to `X @ A'` (operand b x n)"""
+    return call in ("matmat", "T_matmat", "H_matmat")
+
+
+def _fft_real(call, n, adt, X):
+    """the real cola call of one case -> ndarray (or bool for the annotation part of `unitary`)"""
+    import numpy as np
+    import cola
+    from cola.ops import FFT
+    A = FFT(n) if adt is None else FFT(n, dtype=adt)
+    if call == "matmat":
+        return A @ X
+    if call == "rmatmat":
+        return X @ A
+    if call == "T_matmat":
+        return A.T @ X
+    if call == "T_rmatmat":
+        return X @ A.T
+    if call == "H_matmat":
+        return A.H @ X
+    if call == "H_rmatmat":
+        return X @ A.H
+    if call == "dense":
+        return A.to_dense()
+    if call == "T_dense":
+        return A.T.to_dense()
+    if call == "H_dense":
+        return A.H.to_dense()
+    if call == "unitary":
+        # the declaration, and the Gram matrix A^H A through the real products
+        if not (A.isa(cola.Unitary) and A.T.isa(cola.Unitary) and A.H.isa(cola.Unitary)):
+            raise AssertionError("FFT(n) (or its transpose / adjoint) does not report Unitary")
+        return A.H @ (A @ np.eye(n, dtype=np.complex128))
+    raise ValueError(call)
+
+
+def _fft_operand(rng, call, n, xdt, vec):
+    """Gaussian-integer operand of the right shape for `call` (None for the operand-free calls)"""
+    import numpy as np
+    if call in ("dense", "T_dense", "H_dense", "unitary"):
+        return None
+    b = rng.randint(1, 3)
+    shape = (n,) if vec else ((n, b) if _fft_is_left(call) else (b, n))
+    re = np.array([rng.randint(-3, 3) for _ in range(int(np.prod(shape)))], dtype=np.float64).reshape(shape)
+    if np.dtype(xdt).kind == "c":
+        im = np.array([rng.randint(-3, 3) for _ in range(int(np.prod(shape)))], dtype=np.float64).reshape(shape)
+        return (re + 1j * im).astype(xdt)
+    return re.astype(xdt)
+
+
+def _fft_case_x(call, X):
+    """the operand as the driver reads it: a 1-D operand is one column of `A' @ x` / one row of `x @ A'`"""
+    import build
+    if X is None:
+        return None
+    if X.ndim == 1:
+        X = X[:, None] if _fft_is_left(call) else X[None, :]
+    return build.exact_mat(X)
+
+
+def _fft_formula(call, n, X):
+    """tolerance-side reference from the DEFINING FORMULA F[j,k] = exp(-2 pi i jk/n)/sqrt(n) (no FFT routine involved)"""
+    import numpy as np
+    jk = np.outer(np.arange(n), np.arange(n))
+    F = np.exp(-2j * np.pi * jk / n) / np.sqrt(n)
+    M = {"T": F.T, "H": F.conj().T}.get(call.split("_")[0], F) if "_" in call else F
+    if call == "unitary":
+        return np.eye(n, dtype=np.complex128)
+    if call.endswith("dense"):
+        return M
+    if call.endswith("rmatmat"):
+        return X @ M
+    return M @ X
+
+
+def fft_one(call, n, adt_name, xdt_name, X):
+    """real result of one case as {"v": exact matrix, "shape", "dt"} or {"err"} (used by the stream and by --replay)"""
+    import numpy as np
+    import build
+    adt = None if adt_name is None else np.dtype(adt_name).type
+    try:
+        out = np.asarray(_fft_real(call, n, adt, X))
+        was_vec = X is not None and X.ndim == 1
+        o2 = out
+        if was_vec and out.ndim == 1:
+            o2 = out[:, None] if _fft_is_left(call) else out[None, :]
+        return {"v": build.exact_mat(o2), "shape": list(out.shape), "dt": str(out.dtype), "raw": out}
+    except Exception as ex:  # noqa: BLE001
+        return {"err": f"{type(ex).__name__}: {str(ex)[:200]}"}
+
+
+def fft_stream(ctx, calls=None, module=FFT_MODULE):
+    """cola.ops.FFT: real vs Lean code model vs specification (products with fftDen), EXACT for n in {1, 4};
+    n in {2, 3, 5, 8} against the defining formula by tolerance (oracle only).  Gates the sub-module `module`."""
+    import collections
+    import numpy as np
+    import oracle
+    import shim  # noqa: F401
+    calls = calls or FFT_CALLS
+    sub = None
+    sub_err = None
+    try:
+        sub = common.lean_gate(ctx, module)
+    except common.LeanGateError as ex:
+        sub_err = str(ex)
+    rng = random.Random(ctx.seed * 31 + 5)
+    N = (20 if not ctx.thorough else 200) * len(calls)
+    adts = [None, None, "complex64", "complex128"]
+    xdts = ["complex128", "complex128", "complex64", "float64", "float32"]
+    cases, metas, reals, seen = [], [], [], set()
+    for t in range(N):
+        call = calls[t % len(calls)]
+        n = 4 if rng.random() < 0.85 else 1
+        adt, xdt = rng.choice(adts), rng.choice(xdts)
+        vec = rng.random() < 0.15
+        X = _fft_operand(rng, call, n, xdt, vec)
+        c = {"id": t, "call": call, "n": n}
+        if X is not None:
+            c["x"] = _fft_case_x(call, X)
+        cases.append(c)
+        metas.append({"adt": adt, "xdt": xdt if X is not None else None, "vec": bool(vec and X is not None),
+                      "x_raw": None if X is None else [[float(np.real(z)), float(np.imag(z))] for z in np.asarray(X).ravel()],
+                      "x_shape": None if X is None else list(X.shape)})
+        reals.append(fft_one(call, n, adt, xdt, X))
+        if n > 1:
+            seen.add(json.dumps([call, n, adt, metas[-1]["xdt"], metas[-1]["x_shape"], c.get("x")]))
+    try:
+        ans = oracle.run_driver(cases, driver=FFT_DRIVER)
+        drv_err = None
+    except Exception as ex:  # noqa: BLE001
+        ans, drv_err = {}, f"{type(ex).__name__}: {str(ex)[-1500:]}"
+    bad = not_compared = 0
+    per_call = collections.Counter()
+    for c, m, r in zip(cases, metas, reals):
+        a = ans.get(c["id"], {})
+        if "code" not in a:
+            not_compared += 1
+            continue
+        per_call[c["call"]] += 1
+        ok_model = a.get("code") == a.get("spec")
+        want_shape = [a["rows"], a["cols"]]
+        if m["vec"]:
+            want_shape = [c["n"]]
+        ok_real = r.get("v") == a.get("spec") and r.get("shape") == want_shape
+        if ok_model and ok_real:
+            continue
+        bad += 1
+        if bad <= 2:
+            rr = {k: v for k, v in r.items() if k != "raw"}
+            if ok_model:
+                common.violation(ctx, {"stream": "FFT operator", "case": c, "meta": m, "real": rr, "expected": a.get("spec"),
+                                       "expected_shape": want_shape,
+                                       "why": "cola.ops.FFT: %s differs from the product with the DFT matrix s*w^(jk) "
+                                              "(w = exp(-2 pi i/n), s = 1/sqrt(n)) / from the declared annotation" % c["call"]})
+            else:
+                common.violation(ctx, {"broken": "FFT code model differs from its specification (fftDen)", "case": c, "answer": a},
+                                 no_input=True)
+    if drv_err is not None or not_compared > 0.02 * len(cases):
+        common.violation(ctx, {"broken": "FFT stream: the Lean driver did not answer", "driver": FFT_DRIVER, "detail": drv_err,
+                               "not_compared": not_compared, "cases": len(cases)}, no_input=True)
+    # ---- tolerance side (oracle only): the other extents against the defining formula
+    M = (6 if not ctx.thorough else 60) * len(calls)
+    orc = orc_bad = 0
+    max_err = 0.0
+    for t in range(M):
+        call = calls[t % len(calls)]
+        n = rng.choice(FFT_ORACLE_N)
+        X = _fft_operand(rng, call, n, "complex128", False)
+        r = fft_one(call, n, rng.choice([None, "complex128"]), "complex128", X)
+        ref = _fft_formula(call, n, X)
+        orc += 1
+        if "err" in r or r["raw"].shape != ref.shape:
+            err = float("inf")
+        else:
+            err = float(np.max(np.abs(r["raw"] - ref))) / max(1.0, float(np.max(np.abs(ref))))
+            max_err = max(max_err, err)
+        if not err <= FFT_TOL:
+            orc_bad += 1
+            if orc_bad <= 2:
+                common.violation(ctx, {"stream": "FFT operator (tolerance side)", "call": call, "n": n, "tol": FFT_TOL, "rel_err": str(err),
+                                       "x": None if X is None else [[float(np.real(z)), float(np.imag(z))] for z in X.ravel()],
+                                       "x_shape": None if X is None else list(X.shape),
+                                       "real": {k: v for k, v in r.items() if k != "raw"},
+                                       "why": "cola.ops.FFT differs from the defining formula exp(-2 pi i jk/n)/sqrt(n) beyond the tolerance"})
+    if sub_err is not None and not ctx.violations:
+        common.violation(ctx, {"broken": f"Lean gate of {module}", "detail": sub_err[-3000:]}, no_input=True)
+    samples = [dict(c, adt=m["adt"], xdt=m["xdt"]) for c, m in list(zip(cases, metas))[:3]]
+    return {"fft_cases": len(cases), "fft_compared": sum(per_call.values()), "fft_not_compared": not_compared,
+            "fft_disagreements": bad, "fft_distinct_nontrivial": len(seen), "fft_calls": dict(per_call),
+            "fft_rule": "cola.ops.FFT(n) [dtype None / complex64 / complex128], n in {1, 4}, Gaussian-integer operands (entries in "
+                        "[-3, 3], 1 to 3 columns / rows or 1-D, four operand dtypes), compared EXACTLY (value, shape) with the Lean "
+                        "driver DriverFFT.lean (code model = specification = real); distinct = canonical JSON of (call, n, dtype, "
+                        "operand); non-trivial = n = 4",
+            "fft_samples": samples, "fft_oracle_cases": orc, "fft_oracle_disagreements": orc_bad,
+            "fft_oracle_max_rel_err": max_err,
+            "fft_oracle_rule": "n in {2, 3, 5, 8}, complex128: relative error <= 1e-12 against the defining formula (oracle only; the "
+                               "theorems cover these n through C02_fft_complex_params, the exact correspondence does not)",
+            "_sub_gate": sub, "_sub_module": module}
+
+
+def fft_replay(ctx, rp):
+    """--replay of a violation written by the exact side of fft_stream"""
+    import numpy as np
+    import oracle
+    import shim  # noqa: F401
+    c, m = dict(rp["case"]), rp["meta"]
+    c["id"] = 0
+    X = None
+    if m.get("x_raw") is not None:
+        X = np.array([complex(a, b) for a, b in m["x_raw"]]).reshape(m["x_shape"])
+        X = X.astype(m["xdt"]) if np.dtype(m["xdt"]).kind == "c" else np.real(X).astype(m["xdt"])
+    r = fft_one(c["call"], c["n"], m["adt"], m["xdt"], X)
+    a = oracle.run_driver([c], driver=FFT_DRIVER).get(0, {})
+    want_shape = [c["n"]] if m.get("vec") else [a.get("rows"), a.get("cols")]
+    ok = a.get("code") == a.get("spec") and r.get("v") == a.get("spec") and r.get("shape") == want_shape
+    rr = {k: v for k, v in r.items() if k != "raw"}
+    print(json.dumps({"replayed": c, "status": "ok" if ok else "violation", "real": rr, "expected": a.get("spec")})[:2000])
+    if not ok:
+        common.violation(ctx, {"stream": "FFT operator", "case": c, "meta": m, "real": rr, "expected": a.get("spec"),
+                               "expected_shape": want_shape, "why": rp.get("why")})
+
+
+def c01_extra(ctx):
+    cov = kernel_stream(ctx)
+    cov.update(fft_stream(ctx))
+    return cov
+
+
 def run(ctx, calls=CALLS, module=MODULE, corpus=CORPUS, gen_kw=None, extra=None, provisional=None):
     if extra is None and module == MODULE:
-        extra = kernel_stream
+        extra = c01_extra
     gate = None
     gate_err = None
     try:
@@ -86,6 +324,9 @@ def run(ctx, calls=CALLS, module=MODULE, corpus=CORPUS, gen_kw=None, extra=None,
     eng = treecheck.Engine(ctx, G, calls, provisional=provisional)
     if ctx.replay:
         rp = json.load(open(ctx.replay))
+        if rp.get("stream") == "FFT operator":
+            fft_replay(ctx, rp)
+            return
         c = rp.get("case") or rp.get("original_case")
         c["id"] = 0
         for r in eng.evaluate([c]):
@@ -119,14 +360,27 @@ def run(ctx, calls=CALLS, module=MODULE, corpus=CORPUS, gen_kw=None, extra=None,
             common.violation(ctx, {"broken": f"Lean gate of {module}", "detail": gate_err[-3000:]}, no_input=True)
     if extra is not None and not ctx.replay:
         cov.update(extra(ctx))
+        sub, sub_module = cov.pop("_sub_gate", None), cov.pop("_sub_module", None)
+        if sub and gate:
+            # the audited theorems of the property sub-module (cola.ops.FFT) count as obligations of this property
+            gate = dict(gate)
+            gate["obligations"] += sub["obligations"]
+            gate["discharged"] += sub["discharged"]
+            gate["theorems"] = sorted(set(gate["theorems"]) | set(sub["theorems"]))
+            gate["checker_cmd"] += " ; " + sub["checker_cmd"]
+            cov["sub_modules"] = {sub_module: {"obligations": sub["obligations"], "discharged": sub["discharged"]}}
     cov["rule"] = ("type-directed random operator trees (gen.py) over all modelled kinds, generator depth parameter <= %d (the special "
                    "composites and the Hermitian / Gram wrappers add further levels: the measured depths are in `depths`), extents "
                    "<= %d, every node of every tree observed; distinct = canonical JSON of (expression, call, operand); non-trivial "
                    "= not a bare Identity/ScalarMul/Diagonal leaf" % (4 if ctx.thorough else 3, G.max_extent))
     common.write_evidence(ctx, gate, cov, assumptions=[
-        "Jacobian, Hessian, ConvolveND, FFT are outside the model (autodiff / jax-only / transcendental payloads); Kernel is "
+        "Jacobian, Hessian, ConvolveND are outside the model (autodiff / jax-only payloads); Kernel is "
         "modelled separately (Model/KernelOp.lean, theorems C01_kernel_matmat / C01_kernel_blocks_cover / C01_kernel_update, "
         "tied by the kernel stream of c01.py) and cannot be nested in a tree",
+        "FFT is modelled separately (Model/FFTOp.lean: root w = exp(-2 pi i/n) and scale s = 1/sqrt(n) are PARAMETERS of the model; "
+        "theorems in Properties/C01/FFT.lean and Properties/C02/FFT.lean for all n; C02_fft_complex_params: the hypotheses hold over "
+        "the complex numbers for every n >= 1).  np.fft is trusted to compute the transform SUM it documents: the fft stream observes "
+        "this exactly for n in {1, 4} (root and scale in Q[i]) and to 1e-12 for n in {2, 3, 5, 8}; an FFT node cannot be nested in a tree",
         "dtype: real = code model = specification.  Operator dtype: Op.dtype (constructors) = Op.dtypeSpec (join of the leaf "
         "dtypes), C01_dtype.  Result dtype of A @ X / X @ A: the code-model value is the RECURSIVE dtype model Op.mmDt / Op.rmmDt "
         "(Model/MatmatDtype.lean: per class what _matmat / _rmatmat does with dtypes), proved equal to promote_types(A.dtype, "
